@@ -146,6 +146,15 @@ impl<'i> Parser<'i> {
     spec fn wf_ev(&self) -> bool { self.wf_ev0() && inroot(self.events@) }
     spec fn wf(&self) -> bool { self.wf_tok() && self.wf_ev() }
     spec fn wf0(&self) -> bool { self.wf_tok() && self.wf_ev0() }
+    // precondition of the tree builder: what `module` leaves behind (L1) + the trivia-filter line of parse_module
+    spec fn bt_pre(&self) -> bool {
+        &&& self.events@.len() >= 2
+        &&& self.events@[0] == (Event::Open { kind: SyntaxKind::SOURCE_FILE })
+        &&& self.events@.last() is Close
+        &&& depth(self.events@) == 0
+        &&& rooted(self.events@)
+        &&& n_adv(self.events@) == n_real(self.tokens_raw@, self.tokens_raw@.len() as int)
+    }
 }
 // frame: what every grammar function leaves alone
 spec fn is_open(s: Seq<Event>, i: int) -> bool { 0 <= i < s.len() && s[i] is Open }
